@@ -581,6 +581,45 @@ func checkGoString(c C20Case, o *Obs) error {
 	}
 	o.NT = len(m) >= 2
 	o.ClassIf(len(m) == 0, "empty matrix")
+	if err := verifyGoString(m); err != nil {
+		return err
+	}
+	if len(m) == 0 {
+		return nil
+	}
+	// The same map printed again after the program changed it in place (a score overwritten, as
+	// genncbi does with the gap-open entry after reading a table; a pair replaced by another):
+	// same object, same number of pairs, different content.
+	keys := make([][2]byte, 0, len(m))
+	for k := range m {
+		keys = append(keys, k)
+	}
+	sort.Slice(keys, func(i, j int) bool { return keys[i][0] < keys[j][0] || keys[i][0] == keys[j][0] && keys[i][1] < keys[j][1] })
+	k0 := keys[len(keys)/2]
+	if v := m[k0]; math.IsInf(v, 0) || math.IsNaN(v) {
+		m[k0] = 7
+	} else {
+		m[k0] = v + 1.5
+	}
+	if err := verifyGoString(m); err != nil {
+		return fmt.Errorf("printed again after one score was overwritten in place: %w", err)
+	}
+	for b := 0; b < 256 && len(m) < 65536; b++ {
+		nk := [2]byte{k0[1] + byte(b), k0[0] ^ 0x55}
+		if _, taken := m[nk]; !taken {
+			delete(m, k0)
+			m[nk] = -2.25
+			break
+		}
+	}
+	if err := verifyGoString(m); err != nil {
+		return fmt.Errorf("printed again after one pair was replaced by another: %w", err)
+	}
+	return nil
+}
+
+// verifyGoString checks what GoString prints for m against m.
+func verifyGoString(m align.SubstitutionMatrix) error {
 	var text string
 	if p := catch(func() { text = m.GoString() }); p != nil {
 		return fmt.Errorf("GoString panicked: %v", p)
